@@ -44,7 +44,7 @@ def table():
 
 def run(check):
     import puppet
-    runs = usimrun.explore(check, None, CONFIGS, invariants=INV, limit=15000 if check.tier == 'quick' else None)
+    runs = usimrun.explore(check, None, CONFIGS, invariants=INV, limit=15000 if check.tier == 'quick' else 250000)
     # the same table for operations that live outside the USim menu (pipe, collect/first, tickers, resources)
     for name, kw, prog in table():
         log, outcome = puppet.run_program(prog, nroots=len(prog), nres=1, **kw)
